@@ -54,7 +54,7 @@ func C02(c *Ctx) {
 		"(A5) maccPerms evaluated as a constant: Minter/Burner holders are exactly the expected module accounts; no repo package imports x/mint; " +
 		"(A7) only the enterprise BankKeeper interface declares MintCoins and none declares BurnCoins; the bank store key flows only into bankkeeper.NewBaseKeeper. " +
 		"Decides structural necessary conditions of C02, not the bank module's balance/supply invariant."
-	r.Rules = []string{"A1.mint-roots", "A1.burn", "A2.mint-amount", "A2.mint-guard", "A5.maccperms", "A5.no-mint-module", "A7.capability", "A1.bank-storekey", "TS.status-transition", "A3.completion-pairing", "A6.one-context"}
+	r.Rules = []string{"A1.mint-roots", "A1.burn", "A2.mint-amount", "A2.mint-guard", "A5.maccperms", "A5.no-mint-module", "A7.capability", "A1.bank-storekey", "TS.status-transition", "A3.completion-pairing", "A3.tally-pairing", "A3.one-block-delay", "A7.derived-queues", "A7.import-fields", "A6.one-context"}
 	r.Trusted = []string{"cosmos-sdk x/bank: MintCoins panics without Minter permission; supply changes only via MintCoins/BurnCoins", "ibc-go transfer voucher mint/burn (not native coin)", "go/ssa + CHA call graph restricted to repo types over-approximates calls"}
 	r.NotDecided = []string{"bank's own Σbalances==supply invariant", "IBC voucher minting", "SDK-internal callers (thorough tier cross-checks with whole-program VTA)"}
 
@@ -97,7 +97,7 @@ func C02(c *Ctx) {
 	// Completed in the turn that pays it (the transition rules of C03, which this property's "only through approved
 	// purchase orders" and "exactly once" rest on)
 	statusTypestate(c)
-	r.Floor("mint sites of the completion loop judged for the completed mark", mintMarksCompleted(c), 1)
+	blockerOrdering(c) // one-block delay between acceptance and mint, the completed mark, the queue pairing, the queues after a restart
 	// ... on one and the same branch of state: the mint is not left on the parent context of a branch that may be dropped
 	r.Analysed["functions_branching_state"] = oneContext(c, []string{"BEGIN", "END", "MSG"}, "enterprise")
 
